@@ -207,9 +207,20 @@ class Check:
     def report(self, part, case, clauses, detail=None):
         key = case.get('key') if isinstance(case, dict) else str(case)
         for f in self.findings:
-            if f.get('part', part) == part and f.get('key') == key and (not f.get('clauses') or set(clauses) <= set(f['clauses'])):
-                self.known_hit.append((f, key))
-                return
+            # a finding names the failing input exactly ('key') and/or the situation TLC recognises ('requires': clause names
+            # that must be in the verdict); 'clauses' bounds what the verdict may contain besides
+            if f.get('part', part) != part:
+                continue
+            if 'key' in f and f['key'] != key:
+                continue
+            if 'requires' in f and not set(f['requires']) <= set(clauses):
+                continue
+            if f.get('clauses') and not set(clauses) <= set(f['clauses']):
+                continue
+            if 'key' not in f and 'requires' not in f:
+                continue
+            self.known_hit.append((f, key))
+            return
         self.nrep += 1
         os.makedirs(os.path.join(VERIF, 'replays', self.pid), exist_ok=True)
         path = os.path.join(VERIF, 'replays', self.pid, f'{part}-{self.nrep}.json')
@@ -303,10 +314,12 @@ class Check:
             pass
         printed = set()
         for f, key in self.known_hit:
-            if f['key'] in printed:
+            fid = f.get('id') or f.get('key')
+            if fid in printed:
                 continue
-            printed.add(f['key'])
-            print(f'KNOWN-FINDING: property={self.pid} {f.get("what", f["key"])}', flush=True)
+            printed.add(fid)
+            n = sum(1 for g, _ in self.known_hit if (g.get('id') or g.get('key')) == fid)
+            print(f'KNOWN-FINDING: property={self.pid} {f.get("what", fid)} [{n} case(s) in this run]', flush=True)
         wall = time.time() - self.t0
         ev = {
             'property_id': self.pid, 'tier': self.tier, 'seed': self.seed, 'level': 'model_checking',
